@@ -42,11 +42,11 @@ type Val struct {
 
 var vTop = Val{K: kTop}
 
-func vConstInt(i int64) Val   { return Val{K: kConst, C: constant.MakeInt64(i)} }
-func vByte(i int) Val         { return Val{K: kConst, C: constant.MakeInt64(int64(i)), FromB: true} }
-func vConstBool(b bool) Val   { return Val{K: kConst, C: constant.MakeBool(b)} }
-func vConstStr(s string) Val  { return Val{K: kConst, C: constant.MakeString(s)} }
-func vOff(a int, k bool) Val  { return Val{K: kOff, A: a, Flag: k} }
+func vConstInt(i int64) Val    { return Val{K: kConst, C: constant.MakeInt64(i)} }
+func vByte(i int) Val          { return Val{K: kConst, C: constant.MakeInt64(int64(i)), FromB: true} }
+func vConstBool(b bool) Val    { return Val{K: kConst, C: constant.MakeBool(b)} }
+func vConstStr(s string) Val   { return Val{K: kConst, C: constant.MakeString(s)} }
+func vOff(a int, k bool) Val   { return Val{K: kOff, A: a, Flag: k} }
 func vLen(s string, a int) Val { return Val{K: kLen, S: s, A: a} }
 
 func (v Val) isConst() bool { return v.K == kConst }
@@ -131,11 +131,11 @@ func hashStr(s string) uint32 {
 // exploration (the reference's stack symbol pushed at the same step).
 type absStack struct {
 	Prev    string // what the top was when this frame was pushed ("" unknown, "[]" empty, else prevKey of that frame)
-	Saved   byte // kind of the build-stack top when this frame was opened ('K' key, 'M' map, 'O' other, 0 unknown)
-	Unknown bool // nothing is known (not even emptiness)
-	Empty bool
-	Top   Val
-	Tag   int
+	Saved   byte   // kind of the build-stack top when this frame was opened ('K' key, 'M' map, 'O' other, 0 unknown)
+	Unknown bool   // nothing is known (not even emptiness)
+	Empty   bool
+	Top     Val
+	Tag     int
 }
 
 // prevKey identifies a frame as the thing a later push covers.
@@ -193,26 +193,26 @@ type State struct {
 	stacks map[string]absStack
 
 	// per-arm (reset at every dispatched byte)
-	cur      int         // dispatched byte value, -1 outside the loop body
-	remLo    int         // bytes after the dispatched byte: lower bound
-	remHi    int         // upper bound, -1 = unbounded
-	known    map[int]int // known look-ahead bytes: position (>=1, relative to off0) -> byte
-	scan     *scanInfo
-	events   []Event
-	notes    []string
-	popped   []string // stack fields popped in this arm (in order)
-	pushed   []pushRec
-	depth    int // call inlining depth
-	errArg   *Val // cursor argument of the error constructor on an error return
-	errPos   string
-	readStale []string
-	panicked string // a runtime panic was reached while evaluating an expression
-	bs       byte // kind of the top of the build stack: 'K' a pending key, 'M' the object being filled, 'O' anything else, 0 unknown
-	pendingRestore byte // Saved kind of the container frame popped in this arm
-	readFirst map[string]bool // tracked fields read before written in this arm (liveness sampling)
-	decisions []string // outcomes of conditions over untracked data taken in this arm (self product: the two sides must agree on them)
-	assigned map[string]bool // receiver fields assigned in this arm
-	garbage  map[string]bool // scratch buffers whose content was consumed (or is left over) and not truncated since
+	cur            int         // dispatched byte value, -1 outside the loop body
+	remLo          int         // bytes after the dispatched byte: lower bound
+	remHi          int         // upper bound, -1 = unbounded
+	known          map[int]int // known look-ahead bytes: position (>=1, relative to off0) -> byte
+	scan           *scanInfo
+	events         []Event
+	notes          []string
+	popped         []string // stack fields popped in this arm (in order)
+	pushed         []pushRec
+	depth          int  // call inlining depth
+	errArg         *Val // cursor argument of the error constructor on an error return
+	errPos         string
+	readStale      []string
+	panicked       string          // a runtime panic was reached while evaluating an expression
+	bs             byte            // kind of the top of the build stack: 'K' a pending key, 'M' the object being filled, 'O' anything else, 0 unknown
+	pendingRestore byte            // Saved kind of the container frame popped in this arm
+	readFirst      map[string]bool // tracked fields read before written in this arm (liveness sampling)
+	decisions      []string        // outcomes of conditions over untracked data taken in this arm (self product: the two sides must agree on them)
+	assigned       map[string]bool // receiver fields assigned in this arm
+	garbage        map[string]bool // scratch buffers whose content was consumed (or is left over) and not truncated since
 }
 
 type pushRec struct {
